@@ -450,7 +450,7 @@ pub fn run_lat(op: &str, a: &[Arg], st: &mut Stats) -> Option<Out> {
             let out = ct_to_vals(ct_from_vals(&vals)?);
             Out::ok(format!("ok:{}", fmt_list_u64(&out))).with_oracle(out == canon, "array -> ciphertext -> array is not the identity")
         }
-        _ => return None,
+        _ => return super::c18bulk::run_lat_more(op, a, st), // bulk / history ops (c18bulk.rs)
     })
 }
 
